@@ -1,5 +1,6 @@
 SPECIFICATION Spec
 CONSTANT Grid <- GridMutant
+CONSTANT ShuffleAll = TRUE
 CONSTANT SupportKey <- MutSupportKey
 INVARIANT SupportGrouping
 CHECK_DEADLOCK FALSE
